@@ -34,7 +34,7 @@ type sigCase struct {
 // construct builds a tuple from one of the accept-side constructions and
 // then optionally applies one reject-side edit.
 func construct(t *rapid.T, friendly bool) sigCase {
-	how := rapid.SampledFrom([]string{"honest", "chosen-R", "chosen-R", "R=O", "random"}).Draw(t, "how")
+	how := gen.Sampled([]string{"honest", "chosen-R", "chosen-R", "R=O", "random"}).Draw(t, "how")
 	if friendly && (how == "R=O" || how == "random") {
 		how = "chosen-R"
 	}
@@ -78,9 +78,9 @@ func construct(t *rapid.T, friendly bool) sigCase {
 		// internal R is exactly this R) and only the final "x(R) mod n == r" comparison decides.
 		// They are the hostile inputs for comparisons that wrap mod p or mod 2^256, look at the wrong
 		// coordinate, or skip the reduction.  The reference decides the verdict.
-		ralias := rapid.SampledFrom([]string{"exact", "exact", "exact", "exact", "x+(p-n)", "x+(2^256-n)", "x+(2^256-p)", "y(R)", "-x", "x+1", "x(2R)", "x-(p-n)"}).Draw(t, "r-alias")
-		if friendly {
-			ralias = "exact"
+		ralias := gen.Sampled([]string{"exact", "exact", "exact", "exact", "x+(p-n)", "x+(2^256-n)", "x+(2^256-p)", "y(R)", "-x", "x+1", "x(2R)", "x-(p-n)"}).Draw(t, "r-alias")
+		if friendly || R.X.Cmp(ref.N) >= 0 {
+			ralias = "exact" // (x(R) >= n: keep r = x - n exact, that class is about the reduction and the r+n encoding)
 		}
 		two256 := new(big.Int).Lsh(big.NewInt(1), 256)
 		switch ralias {
@@ -112,6 +112,14 @@ func construct(t *rapid.T, friendly bool) sigCase {
 			t.Skip("r = 0")
 		}
 		s := gen.SSpecial(t, "s")
+		if rapid.IntRange(0, 3).Draw(t, "glv-u2") == 0 {
+			// the verifier multiplies Q by u2 = r/s with the variable-time GLV routine: pick u2 at the
+			// decomposition's rare corners (extreme halves, rounding carry across a limb) and solve for s
+			if u2, _ := gen.GLVScalar(t, "u2"); u2.Sign() != 0 {
+				s = ref.MulM(r, ref.Inv0(u2, ref.N), ref.N)
+				c.cls = append(c.cls, "u2-glv-steered")
+			}
+		}
 		e := ref.Mod(gen.EValue(t, "e"), ref.N)
 		c.digest, _ = gen.Digest(t, e, dlen, alias, "dg")
 		// Q = r^-1 (sR - eG)
@@ -138,10 +146,13 @@ func construct(t *rapid.T, friendly bool) sigCase {
 		c.r, c.s = gen.Raw256(t, ref.N, "r"), gen.Raw256(t, ref.N, "s")
 	}
 	// optional single edit (reject side, or the high-s twin which stays valid)
-	edit := rapid.SampledFrom([]string{"none", "none", "none", "high-s-twin", "r+1", "r-1", "s+1", "s-1", "digest-bit", "other-key",
+	edit := gen.Sampled([]string{"none", "none", "none", "high-s-twin", "r+1", "r-1", "s+1", "s-1", "digest-bit", "other-key",
 		"-Q", "r=0", "s=0", "r+n", "s+n", "r=n", "s=n", "s=2^256-1", "short-digest", "e+1"}).Draw(t, "edit")
 	if friendly && edit != "high-s-twin" {
 		edit = "none"
+	}
+	if !friendly && c.r != nil && new(big.Int).Add(c.r, ref.N).BitLen() <= 256 && rapid.Bool().Draw(t, "force-r+n") {
+		edit = "r+n" // r is tiny (x(R) in [n,p) or a small abscissa), so the alias r+n still fits the 32-byte field
 	}
 	switch edit {
 	case "high-s-twin":
@@ -315,14 +326,14 @@ func propVerifyOpts(t *rapid.T) {
 	optDesc := "nil"
 	if rapid.IntRange(0, 4).Draw(t, "nilopts") != 0 {
 		opts = &secec.ECDSAOptions{
-			Hash:            rapid.SampledFrom(gen.HashChoices).Draw(t, "hash"),
-			Encoding:        secec.SignatureEncoding(rapid.SampledFrom([]int{0, 0, 1, 1, 2, 2, 3, -1, 100}).Draw(t, "enc")),
+			Hash:            gen.Sampled(gen.HashChoices).Draw(t, "hash"),
+			Encoding:        secec.SignatureEncoding(gen.Sampled([]int{0, 0, 1, 1, 2, 2, 3, -1, 100}).Draw(t, "enc")),
 			RejectMalleable: rapid.Bool().Draw(t, "rm"),
 			SelfVerify:      rapid.Bool().Draw(t, "sv"),
 		}
 		if friendly {
 			opts.Encoding = secec.SignatureEncoding(rapid.IntRange(0, 2).Draw(t, "fenc"))
-			opts.Hash = rapid.SampledFrom([]crypto.Hash{0, crypto.SHA256, crypto.SHA384, crypto.SHA512, crypto.SHA512_256, crypto.SHA3_256}).Draw(t, "fhash")
+			opts.Hash = gen.Sampled(gen.WideHashChoices).Draw(t, "fhash")
 			if want := gen.HashSize(opts.Hash); len(c.digest) > want {
 				c.digest = c.digest[:want]
 			} else if len(c.digest) < want {
@@ -347,7 +358,7 @@ func propVerifyOpts(t *rapid.T) {
 	var v byte
 	vKind := "n/a"
 	if enc == secec.EncodingCompactRecoverable {
-		vKind = rapid.SampledFrom([]string{"right", "right", "wrong", "+4", "any"}).Draw(t, "vkind")
+		vKind = gen.Sampled([]string{"right", "right", "wrong", "+4", "any"}).Draw(t, "vkind")
 		if friendly && rapid.IntRange(0, 3).Draw(t, "fv") != 0 {
 			vKind = "right"
 		}
@@ -377,7 +388,7 @@ func propVerifyOpts(t *rapid.T) {
 		}
 	}
 	sig := encodeSig(enc, c.r, c.s, v)
-	if m := rapid.SampledFrom([]string{"none", "none", "none", "none", "trail", "truncate", "der-pad", "empty"}).Draw(t, "sigmut"); m != "none" && !friendly {
+	if m := gen.Sampled([]string{"none", "none", "none", "none", "trail", "truncate", "der-pad", "empty"}).Draw(t, "sigmut"); m != "none" && !friendly {
 		switch m {
 		case "trail":
 			sig = append(sig, 0)
@@ -435,7 +446,7 @@ func propBitcoin(t *rapid.T) {
 		c.s = low
 	}
 	der := ref.EncodeDERSig(c.r, c.s)
-	env := rapid.SampledFrom([]string{"sighash", "sighash", "sighash", "no-sighash", "two-sighash", "long-len", "pad-r"}).Draw(t, "env")
+	env := gen.Sampled([]string{"sighash", "sighash", "sighash", "no-sighash", "two-sighash", "long-len", "pad-r"}).Draw(t, "env")
 	if friendly {
 		env = "sighash"
 	}
